@@ -97,7 +97,8 @@ def gen_case(rng, kind=None, force=None):
     for c in range(ncorners):
         for col in range(stride):
             stream.append(rng.randrange(limit[col]) if limit[col] > 0 else 0)
-    case = dict(kind=kind, material=rng.choice([None, 'a', 'a', 'b', 'c']), voff=offs[0], vdata=vdata, normal=normal, tex=tex,
+    via = 'load' if rng.random() < 0.25 and not (kind == 'pgons' and 0 in vcounts) else 'create'
+    case = dict(kind=kind, via=via, material=rng.choice([None, 'a', 'a', 'b', 'c']), voff=offs[0], vdata=vdata, normal=normal, tex=tex,
                 stride=stride, stream=stream, vcounts=vcounts,
                 matrices=[rand_matrix(rng) for _ in range(rng.choice([1, 1, 1, 2]))],
                 bindings=[[rng.choice(['a', 'b', 'c']), rng.randint(0, 2)] for _ in range(rng.choice([0, 1, 1, 2, 3]))])
@@ -266,6 +267,25 @@ def build(case):
     if len(bps) != 1:
         raise AssertionError('bound geometry yields %d primitives' % len(bps))
     b.p, b.bp, b.mesh = p, bps[0], mesh
+    b.via = 'create'
+    if case.get('via') == 'load':
+        # the same primitive as pycollada reads it back from its own XML (writing and loading as such
+        # belong to C01/C05/C08: if they fail here the constructed objects are used and the histogram says so)
+        import io
+        try:
+            buf = io.BytesIO()
+            mesh.write(buf)
+            m2 = collada.Collada(io.BytesIO(buf.getvalue()))
+            p2 = m2.geometries[0].primitives[0]
+            bg2 = list(m2.scene.objects('geometry'))
+            bp2 = list(bg2[0].primitives())
+            mats2 = [m2.materials['mat%d' % k] for k in range(3)]
+            if type(p2) is type(p) and len(bg2) == 1 and len(bp2) == 1:
+                b.p, b.bp, b.mesh, b.mats, b.via = p2, bp2[0], m2, mats2, 'load'
+            else:
+                b.via = 'load-differs'
+        except Exception as e:
+            b.via = 'load-failed:' + type(e).__name__
     return b
 
 
@@ -567,6 +587,7 @@ def _run_impl(case):
         # the correspondence line reports it
         return ['ok len=%d' % len(b.p)], None
     answers, obs = observe(case, b)
+    case['_via'] = b.via
     return answers, oracle(case, b, obs)
 
 
@@ -636,9 +657,9 @@ def run(ctx):
                 'mostly zero-corner); NORMAL present or not; 0-2 TEXCOORD sets; offsets distinct / shared / gapped; sources of 1..5 rows '
                 '(empty for some empty primitives) with coordinates in [-3,3]; material symbol in {None,a,b,c}; 0..3 material nodes over '
                 'symbols {a,b,c}; one or two nested nodes with integer matrices (entries in [-2,2], identity, pure translation); every '
-                'position -n-2..n+1 on the unbound and the bound primitive, list(), shapes(); plus 4% specs the constructor must refuse and '
+                'position -n-2..n+1 on the unbound and the bound primitive, list(), shapes(); 25% of the primitives are written to XML and read back first; plus 4% specs the constructor must refuse and '
                 'a fixed malformed protocol stream. A case is non-trivial when the primitive has at least one item; distinct = distinct spec')
-    ncases = ctx.n(1800, 40000)
+    ncases = ctx.n(4000, 60000)
     cases = []
     # directed: every kind x normal x ntex x size 0..2 at least once
     for kind in KINDS:
@@ -660,6 +681,7 @@ def run(ctx):
         ls = lines_of(c)
         answers, bad = run_impl(c)
         n = nitems(c)
+        ctx.count('via:' + c.pop('_via', 'none'))
         ctx.case(c, nontrivial=n > 0 and not c.get('expect_reject'))
         ctx.count('kind:' + c['kind'])
         ctx.count('size:%d' % min(n, 6))
